@@ -388,6 +388,16 @@ func classifyResponse(ep *EpInfo, sel *RespInfo, given, want, got *dg.Val, ob *r
 	s := respSide(ep, sel)
 	s.hasAny = hasAny
 	if ob.ClientErr != nil {
+		// no response at all (the server closed the connection): a tagged response whose
+		// header attribute is a nil pointer is dereferenced by the generated encoder
+		if ob.Resp == nil && s.object && sel != nil && len(sel.Tag) == 2 {
+			for i := range s.attrs {
+				ai := &s.attrs[i]
+				if s.locOf(ai.Name) == "header" && !ai.Required && !ai.HasDef && given.Get(ai.Name) == nil {
+					return "tagged-response-unset-header-panics"
+				}
+			}
+		}
 		// the client refused the response
 		if s.object && sel != nil {
 			for i := range s.attrs {
